@@ -347,6 +347,17 @@ theorem state_hit_unchecked (w : World) (h : Hello) (name : Bytes) (now : Int) (
     getCertificate w h (some name) now = (polEv w name, .served c, w.state) := by
   simp [getCertificate, lookupOrIssue, hn, hw, hp, hs]
 
+/-- …hence an expired certificate is served once it sits in `m.state` (observation O6): under the
+    hypotheses of `state_hit_unchecked`, a clock past `NotAfter` changes nothing. -/
+theorem state_serves_expired (w : World) (h : Hello) (name : Bytes) (now : Int) (c : Cert)
+    (hn : nameOK h = true) (hw : wantsTokenCert h = false) (hp : policyOK w name = true)
+    (hs : w.state.lookup (certKeyOf h name).str = some (.ready c)) (hexp : c.na < now) :
+    (getCertificate w h (some name) now).2.1 = .served c ∧ validCert (certKeyOf h name) c now = false := by
+  refine ⟨by rw [state_hit_unchecked w h name now c hn hw hp hs], ?_⟩
+  cases hv : validCert (certKeyOf h name) c now with
+  | false => rfl
+  | true => have := ((validCert_spec _ _ _).1 hv).2.1; omega
+
 theorem issue_state (w : World) (ck : CertKey) (now : Int) (k : Bytes) (c : Cert)
     (hin : (k, StateVal.ready c) ∈ (issue w ck now).2.2) :
     (k, StateVal.ready c) ∈ w.state ∨ (k = ck.str ∧ validCert ck c now = true) := by
